@@ -26,7 +26,7 @@ from data_if import DATAInterface
 from udp_link import UDPLink
 from trx_list import TRXList
 
-from gsm_shared import HoppingParams
+from gsm_shared import HoppingParams, GSM_HYPERFRAME
 
 class Transceiver:
 	""" Base transceiver implementation.
@@ -314,9 +314,11 @@ class Transceiver:
 
 		with self._tx_queue_lock:
 			for msg in self._tx_queue:
-				if msg.fn < fn:
+				# TDMA frame numbers wrap around at the hyperframe
+				delta = (msg.fn - fn) % GSM_HYPERFRAME
+				if delta >= GSM_HYPERFRAME // 2:
 					drop.append(msg)
-				elif msg.fn == fn:
+				elif delta == 0:
 					emit.append(msg)
 				else:
 					wait.append(msg)
